@@ -104,11 +104,23 @@ def run_property(pid, spec: PropertySpec, tier, seed, t0):
     # ------------------------------------------------------------------ Lean part
     lean_res = []
     lean_s = 0.0
+    lean_extra = {}
     if spec.lean:
         from pyvc import lean as leanmod
         tl = time.time()
         lean_res = leanmod.run(spec.lean, pid)
         lean_s = time.time() - tl
+        gen = leanmod.LAST_GEN
+        used_text = "\n".join((ROOT / "lean" / f).read_text() for f in spec.lean if not f.startswith("@")) + ("\n" + gen.get("range_text", "") if "@range" in spec.lean else "")
+        for d in gen.get("index", []):
+            if not re.search(r"\b" + re.escape(d["def"]) + r"\b", used_text):
+                continue
+            fuc.setdefault(d["function"], {"qualname": d["function"], "file": "src/aspire/" + d["function"].split(":")[0].replace(".", "/") + ".py",
+                                           "lines": d["lines"], "source_hash": d["source_hash"], "shapes": 0, "paths": 0, "returned_paths": 0,
+                                           "lean_definitions": []}).setdefault("lean_definitions", []).append(d["def"])
+        lean_extra = {"extraction_drops": {k: v for k, v in gen.get("dropped", {}).items() if v}, "not_translatable": gen.get("errors", [])}
+        for e in gen.get("errors", []):
+            undecided.append((e["function"], "not-translatable", e["error"]))
         for o in lean_res:
             all_obl.append(dict(o, label="lean"))
 
@@ -203,7 +215,7 @@ def run_property(pid, spec: PropertySpec, tier, seed, t0):
             "paths_explored": paths, "shapes": sum(f["shapes"] for f in fuc.values()),
             "solver_time_s": {"z3": round(solver_s, 2), "lean": round(lean_s, 2)},
             "callee_contracts_used": sorted(used), "inlined_callees": sorted(inlined),
-            "lean_theorems": [o["name"] for o in lean_res],
+            "lean_theorems": [o["name"] for o in lean_res], "lean_extraction": lean_extra,
             "static_obligations": [o["name"] for o in static_obl],
             "bounded": {"what": native.get("what"), "bound": native.get("bound"), "cases": native.get("cases", 0),
                         "failures": len(native.get("failures", [])), "note": "bounded stand-in: never counted in `discharged`"},
